@@ -11,6 +11,7 @@ CONSTANTS
   InitSel <- InitEnv
   SThr <- SThrHalf
   DFree = FALSE
+  ZeroExact = FALSE
   Export = TRUE
 INIT Init
 NEXT Next
